@@ -817,6 +817,173 @@ def rule_r7(chk, p, t):
     _ref_rule(r, p, _ORBIT_UTILS_REF, "resonaate.physics.orbits.utils")
 
 
+_KEPLER_RESIDUALS = {
+    # residual -> (parameters, closed form, derivative function, its closed form)
+    "_keplerEquation": (["E", "M", "ecc"], "E - ecc * sin(E) - M", "_keplerEquationDerivative", "1 - ecc * cos(E)"),
+    "_equinoctialKeplerEquation": (["F", "h", "k", "lam"], "F + h * cos(F) - k * sin(F) - lam", "_equinoctialKeplerEquationDerivative", "1 - h * sin(F) - k * cos(F)"),
+}
+_KEPLER_SOLVERS = {"keplerSolveCOE": "_keplerEquation", "keplerSolveEQE": "_equinoctialKeplerEquation"}
+# sine component first: h = e sin(w + I W), k = e cos(w + I W); p = tan^I(i/2) sin W, q = tan^I(i/2) cos W (R6)
+_EQE_PAIRS = {frozenset(("h", "k")): ("h", "k"), frozenset(("p", "q")): ("p", "q")}
+
+
+def rule_r8(chk, p, t):
+    from rsa import ratfun as rf
+    from rsa.terms import NotEvaluable, inline_locals, returned_exprs
+
+    r = chk.rule(
+        "C12.R8",
+        "Kepler's equation: the residuals, what the solvers solve, and the equinoctial angle convention",
+        12,
+        "the classical residual is E - e sin E - M with derivative 1 - e cos E, the equinoctial one F + h cos F - k sin F - "
+        "lambda with derivative 1 - h sin F - k cos F (compared as rational functions); keplerSolveCOE / keplerSolveEQE "
+        "return, on every path, newton(residual, guess, fprime=its derivative, args=the residual's remaining parameters "
+        "in its own order) - or the reduction of the equinoctial equation to the classical one with the longitude of "
+        "perigee arctan2(h, k), mean anomaly lambda - (that longitude) and e = sqrt(h^2 + k^2); any other path is "
+        "undecided; every arctan2 over the pair (h, k) or (p, q) in physics.orbits takes the sine component first (the "
+        "definitions R6 checks); inside physics.orbits a bare name passed to a sibling function whose parameter list "
+        "contains that very name is bound to that parameter (no transposed h / k, raan / argp ...)",
+        "Newton convergence; the numerical value of any anomaly",
+    )
+    kmod = p.module(f"{ORB}.kepler")
+    table = {}
+    for res, (params, closed, der, dclosed) in _KEPLER_RESIDUALS.items():
+        for nm, want, pars in ((res, closed, params), (der, dclosed, params)):
+            fn = kmod.functions.get(nm)
+            if fn is None:
+                r.error(nm, "residual function not found")
+                continue
+            if list(fn.params) != pars:
+                r.violation(fn.qualname + ":signature", f"residual-signature:{nm}:{fn.params}", f"{nm}{tuple(fn.params)}: newton passes (x, *args): expected parameters {pars}", fn.loc())
+                continue
+            try:
+                rets = returned_exprs(fn)
+            except NotEvaluable as e:
+                r.undecided(fn.qualname, f"{e}", fn.loc())
+                continue
+            bad = [unparse(e) for e, _ in rets if not rf.same_value(e, rf.parse(want), table)]
+            if bad:
+                r.violation(fn.qualname, f"residual:{nm}:{bad[0][:60]}", f"{nm} returns `{bad[0][:90]}`, Kepler's equation in root-finding form is `{want}`", fn.loc())
+            else:
+                r.ok(fn.qualname, want, fn.loc())
+    for nm, res in _KEPLER_SOLVERS.items():
+        fn = kmod.functions.get(nm)
+        if fn is None:
+            r.error(nm, "solver not found")
+            continue
+        params, _, der, _ = _KEPLER_RESIDUALS[res]
+        try:
+            rets = returned_exprs(fn)
+        except NotEvaluable as e:
+            r.undecided(fn.qualname, f"{e}", fn.loc())
+            continue
+        for e, conds in rets:
+            cons = f"{fn.qualname}:return@{unparse(e)[:40]}"
+            e = inline_locals(fn, e)
+            if isinstance(e, ast.Call) and call_name(e) == "newton":
+                kw = {k.arg: k.value for k in e.keywords}
+                pos = list(e.args)
+                f0 = pos[0] if pos else kw.get("func")
+                x0 = pos[1] if len(pos) > 1 else kw.get("x0")
+                fp = pos[2] if len(pos) > 2 else kw.get("fprime")
+                ar = pos[3] if len(pos) > 3 else kw.get("args")
+                bad = []
+                if not (isinstance(f0, ast.Name) and f0.id == res):
+                    bad.append(f"the function solved is `{unparse(f0) if f0 is not None else None}`, not {res}")
+                if fp is None:
+                    pass  # secant iteration on the same residual: same root
+                elif not (isinstance(fp, ast.Name) and fp.id == der):
+                    bad.append(f"fprime is `{unparse(fp)}`, not {der}")
+                if not (isinstance(x0, ast.Name) and x0.id == fn.params[0]):
+                    bad.append(f"the initial guess is `{unparse(x0) if x0 is not None else None}`, not the caller's {fn.params[0]}")
+                want_args = params[1:]
+                got_args = [unparse(a) for a in ar.elts] if isinstance(ar, ast.Tuple) else None
+                if got_args != want_args:
+                    bad.append(f"args={got_args} but {res} takes (x, {', '.join(want_args)})")
+                if bad:
+                    r.violation(cons, f"solver:{nm}:" + ";".join(b[:40] for b in bad), f"{nm}: " + "; ".join(bad), fn.loc(e))
+                else:
+                    r.ok(cons, f"newton({res}, {fn.params[0]}, fprime={der}, args=({', '.join(want_args)}))", fn.loc(e))
+                continue
+            # reduction of the equinoctial equation to the classical one
+            red = None
+            if nm == "keplerSolveEQE" and isinstance(e, ast.BinOp) and isinstance(e.op, ast.Add):
+                for lp, call in ((e.left, e.right), (e.right, e.left)):
+                    if isinstance(call, ast.Call) and call_name(call) == "keplerSolveCOE" and len(call.args) >= 3:
+                        red = (lp, call)
+            if red is None:
+                r.undecided(cons, f"`{unparse(e)[:80]}` is neither the Newton iteration on {res} nor the recognised reduction to the classical equation", fn.loc(e))
+                continue
+            lp, call = red
+            want_lp = rf.parse("arctan2(h, k)")
+            m_arg, e_arg = call.args[1], call.args[2]
+            while isinstance(m_arg, ast.Call) and call_name(m_arg) in ("wrapAngle2Pi", "wrapAnglePi", "wrapAngleNegPiPi"):
+                m_arg = m_arg.args[0]
+            bad = []
+            if canon(lp) != canon(want_lp):
+                bad.append(f"the longitude of perigee is `{unparse(lp)[:40]}`; with h = e sin(w + W), k = e cos(w + W) it is arctan2(h, k)")
+            if not rf.same_value(m_arg, ast.BinOp(rf.parse("lam"), ast.Sub(), lp), table):
+                bad.append(f"the mean anomaly is `{unparse(m_arg)[:50]}`, not lam - (longitude of perigee)")
+            if not (rf.same_value(e_arg, rf.parse("sqrt(h ** 2 + k ** 2)"), table) or canon(e_arg) == canon(rf.parse("sqrt(h ** 2 + k ** 2)"))):
+                bad.append(f"the eccentricity is `{unparse(e_arg)[:40]}`, not sqrt(h^2 + k^2)")
+            if bad:
+                r.violation(cons, f"reduction:{nm}:" + ";".join(b[:40] for b in bad), f"{nm}: " + "; ".join(bad), fn.loc(e))
+            else:
+                r.ok(cons, "F = (w + W) + E with E solving the classical equation for M = lambda - (w + W)", fn.loc(e))
+    # the angle convention of the equinoctial pairs, and transposed arguments between siblings
+    n_pairs = n_calls = 0
+    orb_funcs = {}
+    for q, m in p.modules.items():
+        if q.startswith(ORB):
+            for f in m.functions.values():
+                orb_funcs.setdefault(f.name, []).append(f)
+    for q, m in sorted(p.modules.items()):
+        if not q.startswith(ORB):
+            continue
+        for fi in m.functions.values():
+            for c in walk_no_nested(fi.node):
+                if not isinstance(c, ast.Call):
+                    continue
+                cn = call_name(c)
+                if cn in ("arctan2", "atan2") and len(c.args) == 2 and all(isinstance(a, ast.Name) for a in c.args):
+                    pair = _EQE_PAIRS.get(frozenset(a.id for a in c.args))
+                    if pair is not None:
+                        n_pairs += 1
+                        cons = f"{fi.qualname}:{unparse(c)}"
+                        if (c.args[0].id, c.args[1].id) == pair:
+                            r.ok(cons, "sine component first", fi.loc(c))
+                        else:
+                            r.violation(cons, f"eqe-angle:{fi.name}:{unparse(c)}", f"`{unparse(c)}`: {pair[0]} carries the sine and {pair[1]} the cosine of the angle (coe2eqe, Danielson 2.1.2), so the angle is arctan2({pair[0]}, {pair[1]}); this is its complement", fi.loc(c))
+                cands = orb_funcs.get(cn, [])
+                if len(cands) == 1 and not any(isinstance(a, ast.Starred) for a in c.args):
+                    callee = cands[0]
+                    cpars = list(callee.params)
+                    if callee.cls is not None and cpars and cpars[0] in ("self", "cls"):
+                        cpars = cpars[1:]
+                    bound = {cpars[i]: a for i, a in enumerate(c.args) if i < len(cpars)}
+                    bound.update({k.arg: k.value for k in c.keywords if k.arg})
+                    # a name that lands on another parameter while its own parameter receives something else (the
+                    # same name reaching both - the mean longitude as first guess - is no transposition)
+                    swapped = [
+                        (a.id, par)
+                        for par, a in bound.items()
+                        if isinstance(a, ast.Name) and a.id in cpars and par != a.id and par in cpars
+                        and not (isinstance(bound.get(a.id), ast.Name) and bound[a.id].id == a.id)
+                        and a.id in bound
+                    ]
+                    if any(isinstance(a, ast.Name) and a.id in cpars for a in bound.values()) or swapped:
+                        n_calls += 1
+                        cons = f"{fi.qualname}:{unparse(c)[:50]}"
+                        if swapped:
+                            r.violation(cons, f"transposed:{fi.name}:{cn}:{swapped}", f"`{unparse(c)[:90]}`: " + "; ".join(f"`{a}` is passed as `{b}` although {cn} has a parameter `{a}`" for a, b in swapped), fi.loc(c))
+                        else:
+                            r.ok(cons, "names bound to their own parameters", fi.loc(c))
+    if n_pairs < 2:
+        r.error("eqe-pairs", f"{n_pairs} arctan2 over an equinoctial pair found (2 confirmed by hand in eqe2coe)")
+    if n_calls < 10:
+        r.error("sibling-calls", f"only {n_calls} sibling calls with same-named arguments found")
+
+
 def run(chk, p, t):
     chk.explanation = (
         "Static decision of a narrow set of structural necessary conditions of C12: (R1) the four places that split "
@@ -828,7 +995,7 @@ def run(chk, p, t):
         "as numbers, Newton convergence of Kepler's equation."
     )
     chk.assumptions += ["isInclined / isEccentric are the single threshold helpers (tolerances in physics/orbits/__init__.py)"]
-    for fn in (rule_r1, rule_r2, rule_r3, rule_r4, rule_r5, rule_r6, rule_r7):
+    for fn in (rule_r1, rule_r2, rule_r3, rule_r4, rule_r5, rule_r6, rule_r7, rule_r8):
         rid = "C12.R" + fn.__name__[-1]
         if not chk.wants(rid):
             continue
